@@ -463,6 +463,20 @@ def run_case(case):
                 dmg_desc.append(("data", a.disk_names[i], how))
         # ---- fix
         fargs = list(rng.choice([[], [], [], ["-e"], ["-m"], ["-d", a.disk_names[rng.choice(a.disks)]], ["-f", "*a*"], ["-m", "-f", "*e*"]]))
+        if rng.random() < 0.25:
+            # an import directory holding EVERY version the user ever had of the files (old backups): fix may take from it
+            # only blocks whose recorded hash is the hash of the present, wanted data - never the old occupant of a position
+            imp = os.path.join(a.root, "import")
+            os.makedirs(imp, exist_ok=True)
+            for k_, ((dd_, sub_, size_, sec_, ns_), data_) in enumerate(list(fs.store.items())[:80]):
+                if not data_:
+                    continue
+                p_ = os.path.join(imp, "v%d" % k_)
+                with open(p_, "wb") as fh_:
+                    fh_.write(data_)
+                os.utime(p_, ns=(sec_ * 10**9 + ns_, sec_ * 10**9 + ns_))
+            fargs += [rng.choice(["-i", "--test-import-content"]), imp]
+            res["counters"]["fix_runs_with_import_dir_of_old_versions"] = 1
         before = {d: A.snapshot(a.ddir(d)) for d in a.disks}
         # unknown file that must never be written
         stray = os.path.join(a.ddir(a.disks[0]), "stray-unknown-to-content")
